@@ -50,7 +50,7 @@ CONFIG = dict(
     ],
     harness=dict(kind="daemon", test="verif_main_hook::c19::verif_main"),
     profiles=["debug"],
-    n_quick=3000, n_thorough=30000, shards=12,
+    n_quick=3000, n_thorough=12000, shards=12,
     nontrivial_re=r"bmp-rm|bmp-up|bmp-down|bmp-init|mrt-mp|td-rib|td-peers|ev-",
     rule="harness-side generator (needs the real BGP encoder/decoder and a real TableManager): cases of 1-4 items pushed through ONE "
          "BmpCodec / MrtCodec / encode_table_dump into ONE buffer; ~half of the items are daemon events converted by the REAL "
